@@ -3,7 +3,7 @@
 import json
 import subprocess
 
-HOOK_COMMITS = ["072d52a", "c4c9b5a"]
+HOOK_COMMITS = ["072d52a", "c4c9b5a", "3ca0f62"]
 
 TB = ("trusted: regex-syntax 0.8.5 / regex-automata 0.4.9 as the specification of a single pattern's language (the reference never sees logos's "
       "merged DFA), rustc/cargo, the harness itself (validated against seeded defects, see DESIGN.md section 8). Sampled: definitions and inputs; "
